@@ -29,19 +29,40 @@ SLACK = 64 * EPS  # rounding of unit scales, conversion factors and simplificati
 # unit spelling groups
 
 
-def _registry_src():
-    return ("reg = UnitRegistry()\n"
-            "for _n, _s, _d in [('xla', 1.0, D.length), ('xlb', 2.0**-4, D.length), ('xlc', 2.0**8, D.length), ('xld', 2.0**10, D.length),\n"
-            "                   ('xta', 4.0, D.time), ('xtb', 2.0**-6, D.time), ('xtc', 2.0**6, D.time),\n"
-            "                   ('xma', 2.0, D.mass), ('xmb', 2.0**-2, D.mass), ('xmc', 2.0**8, D.mass),\n"
-            "                   ('xfa', 8.0, D.force), ('xea', 2.0**5, D.energy), ('xva', 2.0**-3, D.velocity), ('xqa', 2.0**4, D.rate)]:\n"
-            "    reg.add(_n, _s, _d)\n")
+# the custom registries: (symbol, scale in `reg` (and in `reg3` before modify), scale in `reg2` (and in `reg3`
+# after modify), dimension, zero-point offset).  All scales are powers of two.  `reg` and `reg2` define the SAME
+# symbols with DIFFERENT sizes (two "datasets"); `reg3` starts like `reg` and is modified to the sizes of `reg2`
+# after the "before" unit objects were created (history).
+CUSTOM = [("xla", 1.0, 2.0 ** 3, "length", 0.0), ("xlb", 2.0 ** -4, 2.0 ** -1, "length", 0.0),
+          ("xlc", 2.0 ** 8, 2.0 ** 5, "length", 0.0), ("xld", 2.0 ** 10, 2.0 ** 12, "length", 0.0),
+          ("xta", 4.0, 2.0 ** -1, "time", 0.0), ("xtb", 2.0 ** -6, 2.0 ** -3, "time", 0.0), ("xtc", 2.0 ** 6, 2.0 ** 9, "time", 0.0),
+          ("xma", 2.0, 2.0 ** 4, "mass", 0.0), ("xmb", 2.0 ** -2, 2.0 ** -5, "mass", 0.0), ("xmc", 2.0 ** 8, 2.0 ** 6, "mass", 0.0),
+          ("xfa", 8.0, 2.0 ** 1, "force", 0.0), ("xea", 2.0 ** 5, 2.0 ** 8, "energy", 0.0),
+          ("xva", 2.0 ** -3, 2.0 ** -5, "velocity", 0.0), ("xqa", 2.0 ** 4, 2.0 ** 2, "rate", 0.0),
+          # angle units, two of them with a zero point (like lat / lon), one with a negative scale
+          ("xaa", 2.0 ** -3, 2.0 ** -5, "angle", 4.0), ("xab", -(2.0 ** -1), -(2.0 ** -2), "angle", -2.0),
+          ("xac", 2.0 ** -2, 2.0 ** -4, "angle", 0.0)]
+NDEF = 4  # definitions of a custom symbol: 0 = reg, 1 = reg2, 2 = reg3 before modify, 3 = reg3 after modify
 
 
-CUSTOM = [("xla", 1.0, "length"), ("xlb", 2.0 ** -4, "length"), ("xlc", 2.0 ** 8, "length"), ("xld", 2.0 ** 10, "length"),
-          ("xta", 4.0, "time"), ("xtb", 2.0 ** -6, "time"), ("xtc", 2.0 ** 6, "time"),
-          ("xma", 2.0, "mass"), ("xmb", 2.0 ** -2, "mass"), ("xmc", 2.0 ** 8, "mass"),
-          ("xfa", 8.0, "force"), ("xea", 2.0 ** 5, "energy"), ("xva", 2.0 ** -3, "velocity"), ("xqa", 2.0 ** 4, "rate")]
+def _registry_src(keys=()):
+    """python source that rebuilds the custom registries, their history, and the unit objects `_U[(string, d)]`"""
+    rows = ", ".join(f"({n!r}, {s!r}, {s2!r}, D.{d}, {off!r})" for n, s, s2, d, off in CUSTOM)
+    keys = sorted(set(keys))
+    return (f"_CUSTOM = [{rows}]\n"
+            "reg = UnitRegistry(); reg2 = UnitRegistry(); reg3 = UnitRegistry()\n"
+            "for _n, _s, _s2, _d, _o in _CUSTOM:\n"
+            "    reg.add(_n, _s, _d, offset=(_o or None)); reg2.add(_n, _s2, _d, offset=(_o or None)); reg3.add(_n, _s, _d, offset=(_o or None))\n"
+            f"_KEYS = {keys!r}\n"
+            "_U = {}\n"
+            "for _k in _KEYS:\n"
+            "    if _k[1] == 2:\n        _U[_k] = Unit(_k[0], registry=reg3)      # created before the registry is modified\n"
+            "for _n, _s, _s2, _d, _o in _CUSTOM:\n    reg3.modify(_n, _s2)\n"
+            "for _k in _KEYS:\n"
+            "    if _k[1] == 0:\n        _U[_k] = Unit(_k[0], registry=reg)\n"
+            "    elif _k[1] == 1:\n        _U[_k] = Unit(_k[0], registry=reg2)\n"
+            "    elif _k[1] == 3:\n        _U[_k] = Unit(Unit(_k[0], registry=reg2).expr, registry=reg3)   # re-read after modify\n")
+
 
 # the same dimension spelled through different decompositions (a named derived unit against a
 # product of others): their quotient does not cancel factor by factor, which is the branch of the
@@ -58,6 +79,9 @@ HETERO = [
     ["dimensionless", "percent", "m/km", "s/hr", "N*m/J"],
     ["rad", "degree", "arcmin", "arcsec", "mrad", "rev"],
 ]
+# angle units with a zero point and/or a negative scale: points on an affine scale; only sin/cos/tan take them
+AFFINE = [["rad", "degree", "lat", "lon", "arcmin", "mrad"]]
+AFFINE_POW2 = [["xac", "xaa", "xab"]]
 HETERO_POW2 = [
     ["xea", "xfa*xla", "xma*xla**2/xta**2", "xfa*xlb", "xmb*xlc**2*xtb**(-2)", "xma*xva**2"],
     ["xfa", "xea/xla", "xma*xla/xta**2", "xmc*xlb*xtc**(-2)", "xea/xld"],
@@ -116,9 +140,13 @@ def build_groups(rng, tier):
     # custom registry: power-of-two scales
     cgroups = []
     fam = {}
-    for n, _s, d in CUSTOM:
+    for n, _s, _s2, d, _off in CUSTOM:
         if d in ("length", "time", "mass"):
             fam.setdefault(d, []).append(n)
+    for i, members in enumerate(AFFINE):
+        groups.append((f"affine:{i}", list(members)))
+    for i, members in enumerate(AFFINE_POW2):
+        cgroups.append((f"pow2-affine:{i}", list(members)))
     for i, members in enumerate(HETERO_POW2):
         cgroups.append((f"pow2-hetero:{i}", list(members)))
     for d, ns in fam.items():
@@ -150,7 +178,7 @@ def _sep(a, b, ea, eb):
 
 
 class Node:
-    __slots__ = ("ref", "err", "dim", "bare", "depth", "desc", "exact")
+    __slots__ = ("ref", "err", "dim", "bare", "depth", "desc", "exact", "affine")
 
     def __init__(self, ref, err, dim, bare, depth, desc, exact):
         self.ref = np.asarray(ref)
@@ -160,6 +188,7 @@ class Node:
         self.depth = depth
         self.desc = desc      # (opname, form, arg indices, params)
         self.exact = exact    # every step so far is exactly scale-covariant in IEEE arithmetic under power-of-two rescaling
+        self.affine = False   # a leaf written in a unit with a zero point: a point, not a difference
 
 
 ZERO = tuple([Fraction(0)] * 8)
@@ -395,6 +424,7 @@ class Program:
     def __init__(self, pow2):
         self.pow2 = pow2
         self.leaves = []   # (values ndarray, group index)
+        self.mixed = False  # leaves may be written with the other definitions of the custom symbols
         self.nodes = []    # Node
 
     def ancestors(self, i):
@@ -430,7 +460,11 @@ def gen_program(rng, groups, unit_of, pow2, max_depth, max_nodes, force_op=None)
     def pick():
         return rng.choice(het) if (het and rng.random() < 0.4) else rng.randrange(len(groups))
 
-    gidx = [pick() for _ in range(2)]
+    ang = [i for i, g in enumerate(groups) if "affine" in g[0] or gen.dim_vec(unit_of(g[1][0]).dimensions) == "0,0,0,0,1,0,0,0"]
+    if force_op in ("sin", "cos", "tan") and ang:
+        gidx = [rng.choice(ang) for _ in range(2)]
+    else:
+        gidx = [pick() for _ in range(2)]
     shapes = [(), (3,), (3,), (2, 3), (3, 3)]
     for i in range(nleaves):
         g = rng.choice(gidx) if rng.random() < 0.8 else pick()
@@ -440,22 +474,25 @@ def gen_program(rng, groups, unit_of, pow2, max_depth, max_nodes, force_op=None)
         P.leaves.append((vals, g))
         dim = tuple(Fraction(x) for x in gen.dim_vec(u0.dimensions).split(","))
         # reference SI magnitude of the leaf is defined through the first spelling of its group
-        P.nodes.append(Node(None, 0.0, dim, False, 0, ("leaf", "leaf", [i], None), True))
+        nd = Node(None, 0.0, dim, False, 0, ("leaf", "leaf", [i], None), True)
+        nd.affine = "affine" in groups[g][0]
+        P.nodes.append(nd)
     return P
 
 
 # ---------------------------------------------------------------------------------------------
 
 
-def snippet_header(custom):
+def snippet_header(custom, keys=()):
     h = ("import numpy as np, unyt\nfrom unyt import unyt_array, unyt_quantity, Unit\nfrom unyt.unit_registry import UnitRegistry\n"
          "import unyt.dimensions as D\nnp.seterr(all='ignore')\n")
     if custom:
-        h += _registry_src()
+        h += _registry_src(keys)
     else:
-        h += "reg = None\n"
+        h += "reg = None\n_U = {}\n"
     h += ("def SI(q):\n    return np.asarray(q.d if hasattr(q, 'units') else q, dtype=float) * (float(q.units.base_value) if hasattr(q, 'units') else 1.0)\n"
-          "def Q(vals, u):\n    a = np.array(vals, dtype=float)\n    return unyt_array(a, u, registry=reg) if reg is not None else unyt_array(a, u)\n")
+          "def Q(vals, u, d=0):\n    a = np.array(vals, dtype=float)\n    uu = _U[(u, d)] if (u, d) in _U else (Unit(u, registry=reg) if reg is not None else Unit(u))\n"
+          "    return unyt_array(a, uu) if a.ndim else unyt_quantity(float(a), uu)\n")
     return h
 
 
@@ -478,15 +515,35 @@ def run(tier, seed):
     registry = unyt.unyt_array._ufunc_registry
     by_name = {k.__name__: k for k in registry}
 
-    reg = UnitRegistry()
-    for n, s, d in CUSTOM:
-        reg.add(n, s, getattr(D, d))
+    reg, reg2, reg3 = UnitRegistry(), UnitRegistry(), UnitRegistry()
+    for n, s, s2, d, off in CUSTOM:
+        reg.add(n, s, getattr(D, d), offset=(off or None))
+        reg2.add(n, s2, getattr(D, d), offset=(off or None))
+        reg3.add(n, s, getattr(D, d), offset=(off or None))
     ucache = {}
+    reg3_modified = [False]
 
-    def unit_of(s, custom=False):
-        key = (s, custom)
+    def unit_of(s, custom=False, d=0):
+        """the real Unit for spelling `s`; for the custom symbols `d` selects the definition (0 = reg, 1 = reg2,
+        2 = reg3 before modify, 3 = reg3 after modify).  The objects are kept: a Unit carries the scale its
+        registry gave the symbols when it was created."""
+        key = (s, custom, d if custom else 0)
         if key not in ucache:
-            ucache[key] = Unit(s, registry=reg) if custom else Unit(s)
+            if not custom:
+                ucache[key] = Unit(s)
+            elif d == 0:
+                ucache[key] = Unit(s, registry=reg)
+            elif d == 1:
+                ucache[key] = Unit(s, registry=reg2)
+            elif d == 2:
+                if reg3_modified[0]:
+                    raise RuntimeError("a 'before' unit must be created before reg3 is modified")
+                ucache[key] = Unit(s, registry=reg3)
+            else:
+                if not reg3_modified[0]:
+                    raise RuntimeError("an 'after' unit must be created after reg3 is modified")
+                # through the expression: the registry's string cache may still hold the stale object
+                ucache[key] = Unit(Unit(s, registry=reg2).expr, registry=reg3)
         return ucache[key]
 
     groups, cgroups = build_groups(rng, tier)
@@ -498,7 +555,10 @@ def run(tier, seed):
             for m in members:
                 try:
                     u = unit_of(m, custom)
-                    if u.base_offset == 0 and 1e-12 < float(u.base_value) < 1e12:
+                    if "affine" in name:
+                        if 1e-12 < abs(float(u.base_value)) < 1e12:
+                            ok.append(m)
+                    elif u.base_offset == 0 and 1e-12 < float(u.base_value) < 1e12:
                         ok.append(m)
                 except Exception:  # noqa: BLE001
                     chk.count("spelling-unparsable")
@@ -508,11 +568,23 @@ def run(tier, seed):
 
     groups = clean(groups, False)
     cgroups = clean(cgroups, True)
+    # the history of reg3: every custom spelling first as a 'before' object, then the symbols are modified
+    for _name, members in cgroups:
+        for m in members:
+            unit_of(m, True, 2)
+    for n, s, s2, d, off in CUSTOM:
+        unit_of(n, True, 2)
+        reg3.modify(n, s2)
+    reg3_modified[0] = True
+    for _name, members in cgroups:
+        for m in members:
+            unit_of(m, True, 1)
+            unit_of(m, True, 3)
 
     model_lines = []
     model_expect = []
-    for n, s, d in CUSTOM:
-        model_lines.append("\t".join(["c04.lutadd", n, str(core.f2b(s)), gen.dim_vec(getattr(D, d)), "0"]))
+    for n, s, s2, d, off in CUSTOM:
+        model_lines.append("\t".join(["c04.lutadd", n, str(core.f2b(s)), str(core.f2b(off)), gen.dim_vec(getattr(D, d)), "0"]))
         model_expect.append(("lutadd", None))
 
     # ------------------------------------------------------------------ 1. translator cross-check
@@ -525,12 +597,19 @@ def run(tier, seed):
             return np.asarray(q.d, dtype=float) * float(q.units.base_value)
         return np.asarray(q)
 
-    def spell_leaf(vals, g, k, gs, custom):
-        """the leaf (whose reference spelling is member 0 of its group) written in member k"""
-        u0 = unit_of(gs[g][1][0], custom)
-        uk = unit_of(gs[g][1][k], custom)
-        f = float(u0.base_value) / float(uk.base_value)
-        x = vals * f
+    def leaf_numbers(vals, g, sp, gs, custom):
+        """the numbers of a leaf (reference spelling: member 0 of its group in definition 0) when it is written in
+        spelling sp = (member, definition): same SI magnitude scale*(x - offset)"""
+        k, d = sp
+        u0 = unit_of(gs[g][1][0], custom, 0)
+        uk = unit_of(gs[g][1][k], custom, d)
+        s0, o0, sk, ok_ = float(u0.base_value), float(u0.base_offset), float(uk.base_value), float(uk.base_offset)
+        if o0 == 0 and ok_ == 0:
+            return vals * (s0 / sk), uk
+        return (s0 * (vals - o0)) / sk + ok_, uk
+
+    def spell_leaf(vals, g, sp, gs, custom):
+        x, uk = leaf_numbers(vals, g, sp, gs, custom)
         return unyt_array(x.copy(), uk) if x.ndim else unyt_quantity(float(x), uk)
 
     def apply_node(desc, vals, custom):
@@ -620,9 +699,9 @@ def run(tier, seed):
         """run program P on the library in `nspell` spellings of its leaves; compare every node with
         the reference.  Returns after the first failing node (later nodes are poisoned)."""
         nleaf = len(P.leaves)
-        spellings = [[0] * nleaf]
+        spellings = [[(0, 0)] * nleaf]
         for _ in range(nspell - 1):
-            spellings.append([rng.randrange(len(gs[g][1])) for _v, g in P.leaves])
+            spellings.append([(rng.randrange(len(gs[g][1])), (rng.randrange(NDEF) if P.mixed else 0)) for _v, g in P.leaves])
         outcomes = []   # per spelling: list of ('ok', value) / ('exc', name)
         for sp in spellings:
             vals = []
@@ -662,7 +741,7 @@ def run(tier, seed):
                 s_idx = [s_ for s_, e in excs if e == "RecursionError"][0]
                 chk.fail(f"{kop}|recursion", f"{op} ({form}): RecursionError (in-place / out= result whose coefficient is not 1 on an array whose own unit simplifies to a coefficient)",
                          {"python": make_snippet(P, gs, custom, spellings[s_idx], i, "recursion"), "program": describe(P, gs, i),
-                          "spelling": [gs[g][1][k] for (_v, g), k in zip(P.leaves, spellings[s_idx])]})
+                          "spelling": [(gs[g][1][k[0]], k[1]) for (_v, g), k in zip(P.leaves, spellings[s_idx])]})
                 return
             if any(e == "SymbolNotFoundError" for _s, e in excs):
                 # a unit of the custom registry that ended up attached to the default registry (arctan2 and the
@@ -686,7 +765,7 @@ def run(tier, seed):
                 if k == "exc":
                     bad = (s_idx, f"raise-asym|{v}", f"raised {v} in one spelling but not in another")
                     break
-                why = compare_node(nd, v, P, o)
+                why = compare_node(nd, v, P, o, any(k[1] != 0 for k in spellings[s_idx]))
                 if why:
                     bad = (s_idx, why[0], why[1])
                     break
@@ -694,13 +773,35 @@ def run(tier, seed):
                 s_idx, kind, msg = bad
                 chk.fail(f"{kop}|{kind}", f"{op} ({form}): {msg}",
                          {"python": make_snippet(P, gs, custom, spellings[s_idx], i, kind), "program": describe(P, gs, i),
-                          "spelling": [gs[g][1][k] for (_v, g), k in zip(P.leaves, spellings[s_idx])]})
+                          "spelling": [(gs[g][1][k[0]], k[1]) for (_v, g), k in zip(P.leaves, spellings[s_idx])]})
                 return
 
     def tol_of(nd):
         return 16 * nd.err + 1e-300
 
-    def compare_node(nd, v, P, outcome):
+    # symbols that are the pure number 1 (`dimensionless`, `counts`, `photons`, …): powers of them are
+    # interchangeable labels of the same unit.  (`x**-1` and `x**-2` even collide in `hash` — hash(-1) == hash(-2) —
+    # so the process-wide lru caches of the rule functions may hand back one for the other: a C12 matter.)
+    _lut = gen.extract()["lut"]
+    UNITY = {k for k, v in _lut.items() if core.b2f(v[0]) == 1.0 and core.b2f(v[1]) == 0.0 and all(x == "0" for x in v[2])}
+
+    def label(fac):
+        return {k: v for k, v in gen.parse_factors(fac).items() if k not in UNITY}
+
+    def same_label(a, b):
+        """the same unit with the same label (powers of the unity symbols aside)"""
+        if not (a == b):
+            return False
+        if a.expr == b.expr:
+            return True
+        try:
+            fa = {k_: v_ for k_, v_ in gen.unit_factors(a).items() if k_ not in UNITY}
+            fb = {k_: v_ for k_, v_ in gen.unit_factors(b).items() if k_ not in UNITY}
+            return fa == fb
+        except ValueError:
+            return False
+
+    def compare_node(nd, v, P, outcome, mixed_sp=False):
         """None if the library's node result v agrees with the reference, else (kind, message)"""
         op = nd.desc[0]
         if nd.bare:
@@ -732,10 +833,11 @@ def run(tier, seed):
             return ("dim", f"dimension {v.units.dimensions} differs from dimensional analysis {dstr(nd.dim)}")
         if not nd.bare and op in PRESERVE_LABEL:
             left = outcome[nd.desc[2][0]][1]
-            if hasattr(left, "units") and not (v.units == left.units and v.units.expr == left.units.expr):
+            if hasattr(left, "units") and not same_label(v.units, left.units):
                 return ("label", f"result unit {v.units} is not the left operand's unit {left.units}")
-        if not nd.bare:
-            # the label must denote the scale it carries (so that later operations may rely on either)
+        if not nd.bare and not mixed_sp:
+            # the label must denote the scale it carries (so that later operations may rely on either); with
+            # operands from registries that define the same symbol differently a label has no single reading
             try:
                 rb = Unit(v.units.expr, registry=(reg if P.pow2 else v.units.registry))
                 if not (math.isclose(float(rb.base_value), float(v.units.base_value), rel_tol=1e-9) and rb.dimensions == v.units.dimensions):
@@ -757,18 +859,17 @@ def run(tier, seed):
 
     def make_snippet(P, gs, custom, spelling, upto, kind):
         keep = P.ancestors(upto)
-        lines = [snippet_header(custom)]
+        keys = [(gs[P.leaves[i][1]][1][spelling[i][0]], spelling[i][1]) for i in keep if P.nodes[i].desc[0] == "leaf"]
+        lines = [snippet_header(custom, keys)]
         for i in keep:
             nd = P.nodes[i]
             d = nd.desc
             if d[0] == "leaf":
                 vals, g = P.leaves[i]
-                u0 = unit_of(gs[g][1][0], custom)
-                uk = unit_of(gs[g][1][spelling[i]], custom)
-                f = float(u0.base_value) / float(uk.base_value)
-                x = vals * f
-                lines.append(f"v{i} = Q({x.tolist()!r}, {gs[g][1][spelling[i]]!r})" if x.ndim else f"v{i} = unyt_quantity({float(x)!r}, {gs[g][1][spelling[i]]!r}, registry=reg) if reg is not None else unyt_quantity({float(x)!r}, {gs[g][1][spelling[i]]!r})")
-                lines.append(f"r{i} = np.array({vals.tolist()!r}, dtype=float) * {float(u0.base_value)!r}")
+                u0 = unit_of(gs[g][1][0], custom, 0)
+                x, _uk = leaf_numbers(vals, g, spelling[i], gs, custom)
+                lines.append(f"v{i} = Q({np.asarray(x).tolist()!r}, {gs[g][1][spelling[i][0]]!r}, {spelling[i][1]})")
+                lines.append(f"r{i} = (np.array({vals.tolist()!r}, dtype=float) - {float(u0.base_offset)!r}) * {float(u0.base_value)!r}")
             else:
                 lines.append(node_code(i, d))
                 lines.append(ref_code(i, d))
@@ -790,27 +891,36 @@ def run(tier, seed):
             if nd.desc[0] in PRESERVE_LABEL:
                 a0 = nd.desc[2][0]
                 lines.append(f"assert v{upto}.units == v{a0}.units and v{upto}.units.expr == v{a0}.units.expr, (v{upto}.units, v{a0}.units)")
-            lines.append(f"_rb = Unit(v{upto}.units.expr, registry=(reg if reg is not None else v{upto}.units.registry))")
-            lines.append(f"assert abs(float(_rb.base_value) / float(v{upto}.units.base_value) - 1) < 1e-9 and _rb.dimensions == v{upto}.units.dimensions, (v{upto}.units, _rb.base_value)")
+            if all(k[1] == 0 for k in spelling):
+                lines.append(f"_rb = Unit(v{upto}.units.expr, registry=(reg if reg is not None else v{upto}.units.registry))")
+                lines.append(f"assert abs(float(_rb.base_value) / float(v{upto}.units.base_value) - 1) < 1e-9 and _rb.dimensions == v{upto}.units.dimensions, (v{upto}.units, _rb.base_value)")
         return "\n".join(lines) + "\n"
 
     # ------------------------------------------------------------------ program generation
     def init_leaves(P, gs, custom):
         for i, (vals, g) in enumerate(P.leaves):
-            u0 = unit_of(gs[g][1][0], custom)
-            ref = vals * float(u0.base_value)
+            u0 = unit_of(gs[g][1][0], custom, 0)
+            ref = (vals - float(u0.base_offset)) * float(u0.base_value)
             nd = P.nodes[i]
             nd.ref = ref
-            nd.err = np.zeros(ref.shape) if P.pow2 else 4 * EPS * np.abs(ref)
-            nd.exact = True
+            if nd.affine:
+                # x*s - s*o is rounded relative to |s*o| as well
+                mag = max(abs(float(unit_of(m, custom, d_).base_value) * float(unit_of(m, custom, d_).base_offset))
+                          for m in gs[g][1] for d_ in (range(NDEF) if custom else (0,)))
+                nd.err = 16 * EPS * (np.abs(ref) + mag)
+                nd.exact = False
+            else:
+                nd.err = np.zeros(ref.shape) if P.pow2 else 4 * EPS * np.abs(ref)
+                nd.exact = True
 
     def grow(P, gs, custom, max_depth, max_nodes, force=None):
         """append nodes; `force` = (opname) makes the first added node that operation if applicable"""
         tries = 0
         while len(P.nodes) < max_nodes and tries < 60:
             tries += 1
-            qty = [i for i, n in enumerate(P.nodes) if not n.bare and n.depth < max_depth]
-            if not qty:
+            allq = [i for i, n in enumerate(P.nodes) if not n.bare and n.depth < max_depth]
+            qty = [i for i in allq if not P.nodes[i].affine]   # points on an affine scale feed only sin/cos/tan
+            if not allq:
                 break
             kind = rng.random()
             want = force if (force and len(P.nodes) == len(P.leaves)) else None
@@ -818,6 +928,8 @@ def run(tier, seed):
                 cls = "binary" if want in BINARY else ("unary" if want in UNARY else "reduce")
             else:
                 cls = "binary" if kind < 0.6 else ("unary" if kind < 0.85 else "reduce")
+            if cls != "unary" and not qty:
+                continue
             if cls == "binary":
                 op = want or rng.choice(BINARY)
                 a = rng.choice(qty)
@@ -847,7 +959,13 @@ def run(tier, seed):
                 P.nodes.append(Node(r[0], r[1], r[2], r[3], max(P.nodes[a].depth, P.nodes[b].depth) + 1, (op, form, [a, b], None), r[4]))
             elif cls == "unary":
                 op = want or rng.choice(UNARY)
-                a = rng.choice(qty)
+                pool_ = allq if op in ("sin", "cos", "tan") else qty
+                if op in ("sin", "cos", "tan"):
+                    angs = [i for i in pool_ if P.nodes[i].dim == ANGLE]
+                    pool_ = angs or pool_
+                if not pool_:
+                    continue
+                a = rng.choice(pool_)
                 p = None
                 if P.pow2 and op in ("sqrt", "cbrt"):
                     # a root gives the unit a scale that is a power of two only up to rounding; through the
@@ -895,7 +1013,8 @@ def run(tier, seed):
     dag_nodes_for_model = []
     for force, custom in plan:
         gs = cgroups if custom else groups
-        P = gen_program(rng, gs, lambda s: unit_of(s, custom), custom, max_depth, 0)
+        P = gen_program(rng, gs, lambda s: unit_of(s, custom), custom, max_depth, 0, force if isinstance(force, str) else None)
+        P.mixed = custom and rng.random() < 0.5
         init_leaves(P, gs, custom)
         before = len(P.nodes)
         grow(P, gs, custom, max_depth, before + (rng.randint(1, 3) if force else rng.randint(3, 9 if tier == "quick" else 14)), force)
@@ -904,11 +1023,11 @@ def run(tier, seed):
             continue
         chk.case(("prog", tuple(n.desc[0] + ":" + n.desc[1] for n in P.nodes[before:]), custom),
                  {"registry": "pow2-custom" if custom else "default", "program": describe(P, gs, len(P.nodes) - 1)} if len(chk.samples) < 6 else None)
-        chk.count("programs:" + ("pow2" if custom else "default"))
+        chk.count("programs:" + (("pow2-mixed-definitions" if P.mixed else "pow2") if custom else "default"))
         chk.count(f"depth:{max(n.depth for n in P.nodes)}")
         nfail = len(chk.failures)
         finish_program(P, gs, custom, 3)
-        if len(chk.failures) == nfail and len(dag_nodes_for_model) < (1500 if tier == "quick" else 8000):
+        if len(chk.failures) == nfail and not any(n.affine for n in P.nodes) and len(dag_nodes_for_model) < (1500 if tier == "quick" else 8000):
             dag_nodes_for_model.append((P, gs, custom))
 
     # ------------------------------------------------------------------ 3. model vs library
@@ -949,9 +1068,13 @@ def run(tier, seed):
     # every ufunc of the table with two inputs × unit pairs
     pool = []
     for name, members in groups:
+        if "affine" in name:
+            continue
         for m in rng.sample(members, min(len(members), 3)):
             pool.append((m, False))
     for name, members in cgroups:
+        if "affine" in name:
+            continue
         for m in rng.sample(members, min(len(members), 2)):
             pool.append((m, True))
     binary_names = [n for n in X.get("ufuncRules", {}) if n in X.get("binary", []) or n in ("floor_divide", "matmul")]
@@ -979,6 +1102,20 @@ def run(tier, seed):
                 q1 = unyt_quantity(x1, unit_of(s1, c1))
             add_binary_case(name, q0, q1)
             chk.case(("model-binary", name, s0, s1))
+    # the same spelling with different definitions (two registries / before and after modify): whether the second
+    # operand is rescaled must follow what the units are, not how they are written
+    conv_ufuncs = [n for n in binary_names if X.get("ufuncRules", {}).get(n) in X.get("convRules", [])]
+    cmembers = [m for name, members in cgroups if "affine" not in name for m in members]
+    for name in conv_ufuncs:
+        for _ in range(4 if tier == "quick" else 16):
+            m = rng.choice(cmembers)
+            d0, d1 = rng.sample(range(NDEF), 2)
+            q0 = unyt_quantity(float(leaf_values(rng, (), True)), unit_of(m, True, d0))
+            q1 = unyt_quantity(float(leaf_values(rng, (), True)), unit_of(m, True, d1))
+            add_binary_case(name, q0, q1, tag=f"same-spelling def{d0}/def{d1}")
+            chk.case(("model-same-spelling", name, m, d0, d1))
+            chk.count("model-same-spelling")
+
     # nested units from the programs
     for P, gs, custom in dag_nodes_for_model:
         # re-run on the reference spelling to get the operand quantities
@@ -986,7 +1123,7 @@ def run(tier, seed):
         for i, nd in enumerate(P.nodes):
             try:
                 if nd.desc[0] == "leaf":
-                    vals.append(spell_leaf(P.leaves[i][0], P.leaves[i][1], 0, gs, custom))
+                    vals.append(spell_leaf(P.leaves[i][0], P.leaves[i][1], (0, 0), gs, custom))
                 else:
                     vals.append(apply_node(nd.desc, vals, custom))
             except Exception:  # noqa: BLE001
@@ -1022,7 +1159,7 @@ def run(tier, seed):
         for i, nd in enumerate(P.nodes):
             try:
                 if nd.desc[0] == "leaf":
-                    vals.append(spell_leaf(P.leaves[i][0], P.leaves[i][1], rng.randrange(len(gs[P.leaves[i][1]][1])), gs, custom))
+                    vals.append(spell_leaf(P.leaves[i][0], P.leaves[i][1], (rng.randrange(len(gs[P.leaves[i][1]][1])), 0), gs, custom))
                 else:
                     vals.append(apply_node(nd.desc, vals, custom))
             except Exception:  # noqa: BLE001
@@ -1117,13 +1254,17 @@ def run(tier, seed):
                 model_expect.append(("unary", (name, method, q, r)))
                 chk.case(("model-unary", name, method, s0))
     # trig of angles
-    for s0 in ["rad", "degree", "arcmin", "arcsec", "mrad", "rev", "gradian", "hourangle"]:
+    angle_units = [(k, False, 0) for k, v in gen.extract()["lut"].items() if v[2] == ["0", "0", "0", "0", "1", "0", "0", "0"]]
+    angle_units += [("mrad", False, 0), ("degree/2", False, 0)]
+    angle_units += [(n, True, d_) for n, _s, _s2, dd, _o in CUSTOM if dd == "angle" for d_ in range(NDEF)]
+    for s0, c0, d0 in angle_units:
         for name in ("sin", "cos", "tan"):
             try:
-                u = unit_of(s0)
+                u = unit_of(s0, c0, d0)
             except Exception:  # noqa: BLE001
                 continue
-            q = unyt_array(np.array([rng.uniform(0.1, 1.2) / float(u.base_value)]), u)
+            # an angle of 0.1 .. 1.2 rad, written in the unit: x = rad / scale + offset
+            q = unyt_array(np.array([rng.uniform(0.1, 1.2) / float(u.base_value) + float(u.base_offset)]), u)
             try:
                 r = ("ok", by_name[name](q))
             except Exception as e:  # noqa: BLE001
@@ -1178,7 +1319,7 @@ def run(tier, seed):
         except ValueError:
             return True
         return (core.close(core.b2f(rep[at + 1]), float(u.base_value), 1e-9) and rep[at + 3] == want[2]
-                and gen.parse_factors(rep[at + 5]) == gen.parse_factors(want[4])
+                and label(rep[at + 5]) == label(want[4])
                 and core.close(core.b2f(rep[at + 4]), core.b2f(want[3]), 1e-9))
 
     def vclose(a, b, scale):
